@@ -3,6 +3,7 @@
 package server
 
 import (
+	"sync/atomic"
 	"bufio"
 	"crypto/ecdsa"
 	"crypto/elliptic"
@@ -75,15 +76,27 @@ func TestVerif(t *testing.T) {
 		}
 		progress := make(chan string, 1)
 		go func() {
+			// progress = a new case, or a completed operation inside a case (verifTick); measured on the real clock from
+			// outside any synctest bubble, so a loaded machine that is slow but moving is never taken for a hang
 			cur := ""
+			last, lastChange := verifTicks.Load(), time.Now()
+			tk := time.NewTicker(500 * time.Millisecond)
+			defer tk.Stop()
 			for {
 				select {
 				case c, ok := <-progress:
 					if !ok {
 						return
 					}
-					cur = c
-				case <-time.After(limit):
+					cur, lastChange = c, time.Now()
+				case <-tk.C:
+					if v := verifTicks.Load(); v != last {
+						last, lastChange = v, time.Now()
+						continue
+					}
+					if time.Since(lastChange) < limit {
+						continue
+					}
 					w.Flush()
 					fmt.Fprintf(w, "HANG: no progress for %s in %q\n", limit, cur)
 					w.Flush()
@@ -202,3 +215,8 @@ func pick[T any](rng *mrand.Rand, xs []T) T { return xs[rng.IntN(len(xs))] }
 func chance(rng *mrand.Rand, pct int) bool { return rng.IntN(100) < pct }
 
 var _ = fmt.Sprintf
+
+// verifTicks counts completed harness operations; the watchdog treats a change as progress.
+var verifTicks atomic.Int64
+
+func verifTick() { verifTicks.Add(1) }
